@@ -125,6 +125,10 @@ impl Runtime {
             self.program.clear();
             self.program.codegen(self.listing.lines());
             self.dirty = false;
+            // Addresses kept from the previous compile must not be resumed into the new one.
+            self.stack.clear();
+            self.functions.clear();
+            self.cont = State::Stopped;
         }
         self.program.codegen(&line);
         let (pc, indirect_errors, direct_errors) = self.program.link();
